@@ -1,6 +1,7 @@
 (* C20 model driver.  I/O and conversion only.
    Input:
      <id> F <hex file>                                        the bytes of the following cases
+     <id> f <hex file>                                        the same, not counted in the tameness statistics
      <id>.<cut> C <cut> <x|-> <k> {<off>:<class>:<val>}       scan the first <cut> bytes; the outcome of the
                                                               real object parser at the k located candidates;
                                                               x = also print the rebuilt xref table
@@ -17,6 +18,15 @@ let prefix (n : int) : BinNums.coq_N list =
   let a = !file_arr in
   let rec go i acc = if i < 0 then acc else go (i - 1) (a.(i) :: acc) in
   go (min n (Array.length a) - 1) []
+
+(* offsets are unary numbers; one and the same number object reaches the parse outcome table,
+   the listing and the xref table, so its conversion is remembered (by physical identity)
+   for the duration of one case *)
+let memo : (Datatypes.nat * int) list ref = ref []
+let int_of_nat (n : Datatypes.nat) : int =
+  match Stdlib.List.find_opt (fun (k, _) -> k == n) !memo with
+  | Some (_, v) -> v
+  | None -> let v = Wire.int_of_nat n in memo := (n, v) :: !memo; v
 
 let cls_of s : string pres =
   match Stdlib.String.split_on_char ':' s with
@@ -72,13 +82,17 @@ let ideal_out = lazy (open_out "ideal.txt")
 let () =
   iter_lines (fun line ->
     match words line with
-    | [_; "F"; hex] ->
+    | [_; ("F" | "f" as tag); hex] ->
       file := bytes_of_hex hex;
       file_arr := Array.of_list !file;
-      (* does the hypothesis of the theorems hold of this file? *)
-      incr nfiles;
-      if WindowTheorems.tameb !file then incr ntame
+      (* does the hypothesis of the theorems hold of this file?  (f: the file is also given
+         to another process, which answers this) *)
+      if tag = "F" then begin
+        incr nfiles;
+        if WindowTheorems.tameb !file then incr ntame
+      end
     | id :: "C" :: cut :: x :: k :: rest ->
+      memo := [];
       let data = prefix (int_of_string cut) in
       let table = Hashtbl.create 16 in
       let rec take n l acc = if n = 0 then (Stdlib.List.rev acc, l) else
